@@ -17,7 +17,7 @@ from vlib.core import Stage, fail
 ID = "C06"
 MANIFEST = {
     "category": "exploration",
-    "text": "Generated-input search: unconstrained expressions of the evaluation domain (about half invalid by injecting a neutral-only operand into an O/X over rc-carrying operands, or a bare hint/bare format-constraint pair, at any depth) are judged by the structural criterion computed on the generating AST. The tree evaluator must raise InvalidExpressionError under every one of the 3^m assignments (all when <= 243, else 60 sampled incl. the three constant ones) iff the criterion says invalid; wrapped into AHB expressions of 1-3 parts the same must hold for evaluate_ahb_expression_tree (3^m*2^n content evaluation results) and is_valid_expression must answer (False, reason) resp. (True, None) for the string and for the resolved tree.",
+    "text": "Generated-input search: unconstrained expressions of the evaluation domain (about half invalid by injecting a neutral-only operand into an O/X over rc-carrying operands, or a bare hint/bare format-constraint pair, at any depth) are judged by the structural criterion computed on the generating AST. The tree evaluator must raise InvalidExpressionError under every one of the 3^m assignments (all when <= 243, else 60 sampled incl. the three constant ones) iff the criterion says invalid; wrapped into AHB expressions of 1-3 parts the same must hold for evaluate_ahb_expression_tree (3^m*2^n content evaluation results) and is_valid_expression must answer (False, reason) resp. (True, None) for the string and for the resolved tree. One slice is enumerated completely: every expression with up to 3 (thorough: 4) atoms over the keys [1], [2], [501], [901], [902] (3 023 / 122 780 expressions, more than half of them invalid) under all assignments.",
     "note": "Trusted: ref.validity (structural criterion) and the generator. Expressions whose validity would depend on the unspecified grouping inside an n-ary all-neutral O/X run are never generated. is_valid_expression is only given AHB expressions (with an indicator), as documented. Bounded: <= 10/16 atoms, m+n <= 5 for is_valid_expression.",
     "technique": "property-based testing against a structural reference predicate, with exhaustive assignment enumeration per expression",
 }
@@ -234,11 +234,23 @@ def strategy_ahb(tier):
     return build()
 
 
+SMALL = {"quick": 3, "thorough": 4}
+
+
+def enumerate_small(tier, shard, nshards, seed):  # pylint:disable=unused-argument
+    """every expression (valid or invalid) with up to 3 (thorough: 4) atoms over {[1], [2], [501], [901], [902]}"""
+    for index, ast in enumerate(ref.enumerate_small_dom(SMALL[tier])):
+        if index % nshards == shard:
+            yield {"ast": ast, "s": ref.canonical(ast), "assignments": "all"}
+
+
 STAGES = [
     Stage(name="evaluation", kind="hyp", check=check_evaluation, classify=classify, strategy=strategy_evaluation,
           budget={"quick": 200, "thorough": 3000}, key=lambda c: c["s"],
           floors={"verdict=valid": 0.3, "verdict=invalid": 0.3},
           sample=lambda c: {"s": c["s"], "structurally": ref.validity(c["ast"])}),
+    Stage(name="small-scope", kind="enum", check=check_evaluation, classify=classify, enumerate=enumerate_small,
+          exhaustive=True, key=lambda c: c["s"], sample=lambda c: {"s": c["s"], "structurally": ref.validity(c["ast"])}),
     Stage(name="ahb", kind="hyp", check=check_ahb, classify=classify, strategy=strategy_ahb,
           budget={"quick": 60, "thorough": 800}, key=lambda c: c["s"],
           floors={"verdict=valid": 0.3, "verdict=invalid": 0.15},
